@@ -449,6 +449,45 @@ def drop_rule(ctx, res):
 
 
 # ---- C06.model: every operation on every small object with an exact index -----------------------------------------------
+def hash_rule(ctx, res, rule):
+    """The model replaces the hash table by its specification; this rule covers the one thing between the IndexMap API and the
+    buckets that the specification assumes: every hash the index-map module computes is the hash *of a key* (the entry's key on
+    insertion, removal and re-hash; the lookup key - which must hash like the key - on a query).  Hashing anything else (the
+    whole entry, the key's bytes) files or finds entries under a different hash once the table grows."""
+    P = ctx.P
+    key_ts = None
+    for t in P.types:
+        if t.get("name") == "json_syntax::object::Entry" and t["k"] == "adt" and "SmallString" in t["s"] and "Mapped" not in t["s"]:
+            kf = [f for f in t["variants"][0]["fields"] if f["name"] == "key"]
+            if kf:
+                key_ts = P.types[kf[0]["ty"]]["s"]
+    if key_ts is None:
+        res.violation(rule, rule + "/missing", "cannot find the key type of Entry (anchor lost)")
+        return
+    allowed = {"&" + key_ts, "&str", "&std::string::String", key_ts, "str"}
+    n = 0
+    for inst in P.inst:
+        if not inst["path"].startswith("json_syntax::object::index_map::") or not inst.get("has_mir"):
+            continue
+        for s in P.sites(inst["id"]):
+            c = s["callee"]
+            if c is None:
+                continue
+            ci = P.inst[c]
+            m = re.search(r"as std::hash::BuildHasher>::hash_one::<(.*)>$", ci["name"])
+            if not m and re.search(r"as std::hash::Hash>::hash(::<.*>)?$", ci["name"]):
+                m = re.match(r"^<(.*) as std::hash::Hash>::hash", ci["name"])
+            if not m:
+                continue
+            n += 1
+            t = m.group(1)
+            res.ob(t in allowed, rule, "%s/%s/%s" % (rule, inst["path"].rsplit("index_map::", 1)[-1], t),
+                   "%s hashes a `%s`: the key index must hash the key itself (%s), or a lookup key that hashes like it" % (inst["name"][:90], t, key_ts),
+                   site=P.loc(inst["id"], s["bb"]), sample={"hashes": t, "in": inst["path"]} if n <= 2 else None)
+    res.count(rule + " sites", n)
+    res.floor(rule, rule + " sites", 4)
+
+
 def model_rule(ctx, res, only_index=False, rule="C06.model", ops=None):
     """(only_index=True: report only operations that leave a stale index — what C15 depends on.)
     Induction step of "the object behaves like a plain ordered list and its key index never goes stale": from every
@@ -644,6 +683,23 @@ def model_rule(ctx, res, only_index=False, rule="C06.model", ops=None):
                                 o = one(W.call(st, r, [vec]), opn)
                                 cid = o.new_obj(o.outcome[1]).id
                             check_state(W, o, cid, opn, before, before + added, "(%s)" % show(added))
+            # -- cloning: clone() gives the same entries with an exact index; clone_from() overwrites any target
+            if want_op("clone"):
+                W = world()
+                st = W.sh.st
+                oref, cid = W.mk_object(st, before)
+                o = one(W.call(st, root("root_object_clone"), [oref]), "clone")
+                ncell = o.new_obj(o.outcome[1])
+                check_state(W, o, ncell.id, "clone", before, before, "")
+                check_state(W, o, cid, "clone (the original)", before, before, "")
+                for target in ([], [("k", 7)], [("m", 7), ("k", 7), ("m", 8)]):
+                    W = world()
+                    st = W.sh.st
+                    sref, sid = W.mk_object(st, before)
+                    tref, tid = W.mk_object(st, target)
+                    o = one(W.call(st, root("root_object_clone_from"), [tref, sref]), "clone_from")
+                    check_state(W, o, tid, "clone_from", target, before, "(from %s)" % show(before))
+                    check_state(W, o, sid, "clone_from (the source)", before, before, "")
             # -- canonicalize_with (feature `canonicalize`): every value canonicalised, then members ordered by the UTF-16 form
             #    of their keys (ties by value), index exact.  The same objects with the keys replaced by a pair on which
             #    code-point order and UTF-16 order disagree.
@@ -713,5 +769,7 @@ def model_rule(ctx, res, only_index=False, rule="C06.model", ops=None):
         res.violation(rule, key, detail)
     if not bad:
         res.ob(True, rule, rule + "/all", "", sample={"objects": len(objs), "cases": n_cases[0], "verdict": "list semantics, results and exact index on all of them"})
+    if not rule.startswith("C09"):
+        hash_rule(ctx, res, rule + ".hash")
     if want_op("remove_unique"):
         res.infos.append("remove_unique on a duplicated key returns Err(Duplicate(first, second)) and, because the removal iterator's Drop finishes the removal, deletes every entry with that key; the documentation does not say what is left, so only the index is checked in that case")
